@@ -129,7 +129,7 @@ func runC19(c *Ctx) {
 		encoders[CalleeName(ci.Common())] = true
 	}
 	for e := range encoders {
-		c.Check(len(CallsIn(rp, e)) > 0, "R3", "untrack-knows-encoding:"+e, p.Pos(rp.Pos()), "untrack recognises lines written with this encoder", "track writes lines encoded with "+e+" but untrack never compares against that encoding: such a line cannot be removed with the argument that created it")
+		c.Check(len(CallsInDeep(rp, e)) > 0, "R3", "untrack-knows-encoding:"+e, p.Pos(rp.Pos()), "untrack recognises lines written with this encoder", "track writes lines encoded with "+e+" but untrack never compares against that encoding: such a line cannot be removed with the argument that created it")
 	}
 	c.AtLeast("R3", "encoders used by track", len(encoders), 2)
 
@@ -174,15 +174,17 @@ func runC19(c *Ctx) {
 
 	// ---- R5 idempotence guard --------------------------------------------------------------------------
 	found := false
+	var cmps []*ssa.BinOp
 	for _, b := range tc.Blocks {
-		ifi, ok := lastInstr(b).(*ssa.If)
-		if !ok {
-			continue
+		for _, in := range b.Instrs {
+			// the comparison, whether it is branched on directly or first kept in a local
+			if bo, ok := in.(*ssa.BinOp); ok && (bo.Op == token.EQL || bo.Op == token.NEQ) {
+				cmps = append(cmps, bo)
+			}
 		}
-		op, x, y, ok := BinCmp(ifi.Cond)
-		if !ok || op != token.EQL {
-			continue
-		}
+	}
+	for _, ifi := range cmps {
+		x, y := ifi.X, ifi.Y
 		isKnown := func(v ssa.Value) bool {
 			cc, _, ok := CallResult(v)
 			if !ok || CalleeName(cc.Common()) != "commands.unescapeAttrPattern" {
@@ -484,6 +486,8 @@ func c19Rewrite(c *Ctx, fn *ssa.Function, label string) {
 }
 
 var c19Canaries = []Canary{
+	{Name: "r6-already-supported-ignores-filter", ExpectKey: "C19.R5#track:already-supported-only-if-tracked", Edits: []Edit{{File: "commands/command_track.go", Find: "\n\t\tif !trackNoModifyAttrsFlag {\n\t\t\tfor _, known := range knownPatterns {\n\t\t\t\tif known.Tracked && // a line that does not assign the LFS filter needs replacing\n\t\t\t\t\tunescapeAttrPattern(known.Path) == path.Join(relpath, pattern) &&\n\t\t\t\t\t((trackLockableFlag && known.Lockable) || // enabling lockable & already lockable (no change)\n\t\t\t\t\t\t(trackNotLockableFlag && !known.Lockable) || // disabling lockable & not lockable (no change)\n\t\t\t\t\t\t(!trackLockableFlag && !trackNotLockableFlag)) { // leave lockable as-is in all cases\n", Repl: "\n\t\tif !trackNoModifyAttrsFlag {\n\t\t\tfor _, known := range knownPatterns {\n\t\t\t\tif unescapeAttrPattern(known.Path) == path.Join(relpath, pattern) &&\n\t\t\t\t\t((trackLockableFlag && known.Lockable) || // enabling lockable & already lockable (no change)\n\t\t\t\t\t\t(trackNotLockableFlag && !known.Lockable) || // disabling lockable & not lockable (no change)\n\t\t\t\t\t\t(!trackLockableFlag && !trackNotLockableFlag)) { // leave lockable as-is in all cases\n"}}},
+	{Name: "r6-track-decision-carried-over", ExpectKey: "C19.R5#track:per-argument-decisions", Edits: []Edit{{File: "commands/command_track.go", Find: "\tchangedAttribLines := make(map[string]string)\n\tvar readOnlyPatterns []string\n\tvar writeablePatterns []string\nArgsLoop:\n\tfor _, unsanitizedPattern := range args {\n\t\tpattern := tools.TrimCurrentPrefix(cleanRootPath(unsanitizedPattern))\n\n", Repl: "\tchangedAttribLines := make(map[string]string)\n\tvar readOnlyPatterns []string\n\tvar writeablePatterns []string\n\tvar alreadySupported bool\n\tfor _, unsanitizedPattern := range args {\n\t\tpattern := tools.TrimCurrentPrefix(cleanRootPath(unsanitizedPattern))\n\n"}, {File: "commands/command_track.go", Find: "\t\t\t\t\t((trackLockableFlag && known.Lockable) || // enabling lockable & already lockable (no change)\n\t\t\t\t\t\t(trackNotLockableFlag && !known.Lockable) || // disabling lockable & not lockable (no change)\n\t\t\t\t\t\t(!trackLockableFlag && !trackNotLockableFlag)) { // leave lockable as-is in all cases\n\t\t\t\t\tPrint(tr.Tr.Get(\"%q already supported\", pattern))\n\t\t\t\t\tcontinue ArgsLoop\n\t\t\t\t}\n\t\t\t}\n\t\t}\n\n\t\tlockableArg := \"\"\n\t\tif trackLockableFlag { // no need to test trackNotLockableFlag, if we got here we're disabling\n", Repl: "\t\t\t\t\t((trackLockableFlag && known.Lockable) || // enabling lockable & already lockable (no change)\n\t\t\t\t\t\t(trackNotLockableFlag && !known.Lockable) || // disabling lockable & not lockable (no change)\n\t\t\t\t\t\t(!trackLockableFlag && !trackNotLockableFlag)) { // leave lockable as-is in all cases\n\t\t\t\t\talreadySupported = true\n\t\t\t\t\tbreak\n\t\t\t\t}\n\t\t\t}\n\t\t}\n\t\tif alreadySupported {\n\t\t\tPrint(tr.Tr.Get(\"%q already supported\", pattern))\n\t\t\tcontinue\n\t\t}\n\n\t\tlockableArg := \"\"\n\t\tif trackLockableFlag { // no need to test trackNotLockableFlag, if we got here we're disabling\n"}}},
 	{Name: "r5-empty-line-ending-kept", ExpectKey: "C19.R4#track:empty-line-ending", Edits: []Edit{{File: "commands/command_track.go", Find: "\tif len(lineEnd) == 0 {\n\t\tlineEnd = gitLineEnding(cfg.Git)\n\t}\n", Repl: ""}}},
 	{Name: "r4-delete-under-other-key", ExpectKey: "C19.R4#track:replaced", Edits: []Edit{{File: "commands/command_track.go", Find: "delete(changedAttribLines, pattern)", Repl: "delete(changedAttribLines, fields[0])"}}},
 	{Name: "drop-hash-escape", ExpectKey: "C19.R1#escaped(\"#\")", Edits: []Edit{{File: "commands/command_track.go", Find: "		\"#\": \"\\\\#\",\n", Repl: ""}}},
@@ -646,9 +650,10 @@ func c19ArgPrefix(c *Ctx) {
 			if _, isP := Unwrap(v).(*ssa.Parameter); isP {
 				ok = true
 			}
-			if cc, _, isRes := CallResult(v); isRes {
+			if cc, idx, isRes := CallResult(v); isRes {
 				what = CalleeName(cc.Common())
-				if what == "strings.TrimPrefix" {
+				// strings.CutPrefix's first result is strings.TrimPrefix's result
+				if what == "strings.TrimPrefix" || what == "strings.CutPrefix" && idx == 0 {
 					if _, isP := Unwrap(cc.Call.Args[0]).(*ssa.Parameter); isP {
 						if s, isS := ConstString(cc.Call.Args[1]); isS && (s == "./" || s == ".\\") {
 							ok = true
